@@ -513,7 +513,7 @@ def gen_plotting():
                         return f
         raise KeyError((cls, meth))
     P.Tr(m, nested("SquareRootTransform", "transform_non_affine"), emit_name="sqrt_transform", self_fields=[], kinds={"a": "list"}).translate()
-    P.Tr(m, nested("InvertedSquareRootTransform", "transform"), emit_name="sqrt_inverse_transform", self_fields=[], kinds={"a": "list"}).translate()
+    P.Tr(m, nested("InvertedSquareRootTransform", "transform_non_affine"), emit_name="sqrt_inverse_transform", self_fields=[], kinds={"a": "list"}).translate()
     return m
 
 
